@@ -58,6 +58,9 @@ GROUPS = {
 EXTRACTS = [
     dict(file="weechess-engine/src/uci.rs", marker=".filter_map(|m| {", out="uci_extracted.rs",
          header="pub fn uci_move_token(m: &&str) -> Option<MoveQuery> {"),
+    # the `bestmove` line of the writer thread in Search::spawn (closure body: cannot be called); `println!` is bound to a buffer sink
+    dict(file="weechess-engine/src/uci.rs", marker="if let Some(m) = best_line.first() {", out="uci_bestmove_extracted.rs",
+         header="pub fn uci_print_bestmove(m: &Move) {"),
     # the `ucinewgame` arm of the UCI command loop, as a function over the two loop-local variables it can touch
     dict(file="weechess-engine/src/uci.rs", marker='Some((&"ucinewgame", _)) => {', out="ucinewgame_extracted.rs",
          header="#[allow(unused_mut, unused_variables, unused_assignments)]\npub fn ucinewgame_arm<S: SearchLike>(mut current_search: Option<S>, "
@@ -589,6 +592,10 @@ PROPS["C12"] = dict(
         K("uci", "c12_uci_reader_inverts_lan", desc="the UCI move-token reader (closure body extracted verbatim from Client::exec) "
           "applied to the coordinate text of any move value returns the query with exactly that origin, destination and "
           "promotion, which matches the move", functions=["Client::exec move-token closure (extracted)"], timeout=1500),
+        K("uci", "c12_uci_bestmove_line_contract", desc="the `bestmove` line of the UCI writer thread (statement extracted verbatim from Search::spawn, "
+          "println! bound to a buffer): for every move value it prints exactly `bestmove ` + origin + destination + lower-case promotion letter + "
+          "newline -- the text the UCI move-token reader maps back to that move", functions=["Search::spawn writer closure, bestmove statement (extracted)"],
+          timeout=2400),
     ],
     assumptions=[],
     technique="Kani/CBMC: SAN parser proved to invert a spec writer on every field tuple; MoveQuery::test contract; Lan writer "
